@@ -15,7 +15,11 @@ import (
 
 // a real go/types object for diagnostics (parseMethod only uses it for messages once method.Parse is stubbed)
 func verifObj() types.Object {
-	return types.NewVar(token.NoPos, nil, "Convert", types.Typ[types.Int])
+	pkg := types.NewPackage("example.org/in", "in")
+	sig := types.NewSignatureType(nil, nil, nil,
+		types.NewTuple(types.NewParam(token.NoPos, pkg, "source", types.Typ[types.Int])),
+		types.NewTuple(types.NewParam(token.NoPos, pkg, "", types.Typ[types.String])), false)
+	return types.NewFunc(token.NoPos, pkg, "Convert", sig)
 }
 
 // boolean inheritable settings and the Common field(s) each designates
